@@ -92,6 +92,49 @@ class Recorder:
         return self._h.hexdigest()
 
 
+def from_library(exc) -> bool:
+    """True if the exception was raised by a frame inside the library under test
+    (as opposed to harness code): such an exception is an outcome of the library."""
+    root = os.path.realpath(REPO) + os.sep
+    tb = exc.__traceback__
+    last_lib = False
+    while tb is not None:
+        fn = os.path.realpath(tb.tb_frame.f_code.co_filename)
+        last_lib = fn.startswith(root)
+        if last_lib:
+            return True
+        tb = tb.tb_next
+    return False
+
+
+def run_ops(machine, ops, rec, crash_oracle, write_oracle=None):
+    """Generic interpreter loop: one op at a time, invariants inside machine.apply().
+    A non-Violation exception coming out of library frames during an op whose
+    outcome the machine did not anticipate is reported under `crash_oracle`."""
+    for step, op in enumerate(ops):
+        try:
+            machine.apply(op, step)
+        except Violation as v:
+            v.step = step
+            raise
+        except Exception as e:
+            if from_library(e) or "read-only" in str(e):
+                what = "wrote to a write-protected operand" if "read-only" in str(e) else "raised"
+                orc = write_oracle if (write_oracle and "read-only" in str(e)) else crash_oracle
+                v = Violation(orc, f"library {what} during op {json.dumps(op)[:300]}: "
+                                            f"{type(e).__name__}: {e}", f"crash/{op.get('op')}/{type(e).__name__}")
+                v.step = step
+                raise v from e
+            raise
+    fin = getattr(machine, "finish", None)
+    if fin:
+        try:
+            fin()
+        except Violation as v:
+            v.step = len(ops) - 1
+            raise
+
+
 def array_digest(a) -> str:
     import numpy as np
     a = np.asarray(a)
